@@ -268,6 +268,30 @@ static int do_str_random(unsigned long seed, int nhist, int nops, char const *pr
     static int const cps[] = {65, 233, 8364, 128512, 1114111, 2097152, 67108864, 2147483647};
     static unsigned char const alpha[] = {97, 98, 32, 9, 0, 200, 0xC3, 0xA9, 45, 122};
     srnd_s = 0x9E3779B97F4A7C15ull ^ (seed * 1000003ull);
+    /* capacity sweep: every request size from several starting capacities (with a short content that must survive) */
+    {
+        static int const start[] = {0, 8, 128, 300, 1000};
+        for (int si = 0; si < 5; ++si)
+        {
+            for (int k = 1; k <= 1600; k += (k < 700 ? 1 : 7))
+            {
+                a_str o;
+                a_str_ctor(&o);
+                if (start[si]) { a_str_setm(&o, (a_size)start[si]); a_str_cats(&o, "ab"); }
+                int n = (int)o.num_, mem = (int)o.mem_;
+                int ret = a_str_setm(&o, (a_size)k);
+                FILE *fo = fos[(n_events / 256) % nb];
+                int pre[4] = {97, 98, 0, 0};
+                fprintf(fo, "{\"op\":\"setm\",\"a1\":%d,\"blk\":[],\"pre\":{\"mem\":%d,\"s\":", k, mem);
+                put_ints(fo, pre, n);
+                fprintf(fo, "},\"post\":{\"mem\":%d,\"after\":%d,\"s\":", (int)o.mem_, (o.num_ < o.mem_) ? (unsigned char)o.ptr_[o.num_] : -1);
+                put_bytes(fo, (unsigned char const *)o.ptr_, (int)o.num_);
+                fprintf(fo, "},\"ret\":%d,\"out\":[],\"outok\":1}\n", ret);
+                ++n_events; ++n_edges;
+                a_str_dtor(&o);
+            }
+        }
+    }
     for (int h = 0; h < nhist; ++h)
     {
         a_str o, other;
